@@ -24,7 +24,7 @@ T16 == /\ IsEv("c16")
        /\ r.alloc_in_proportion
        /\ r.out = "ok" => r.reencodes
        /\ r.kind = "truncate" => r.out = "err"
-       /\ r.kind = "extend" => r.out = "ok"
+       \* (an honest encoding followed by extra bytes: a value or an error - the properties do not say which)
        /\ (r.kind = "len" /\ r.class = "n") => r.out = "ok"
        /\ (r.kind = "len" /\ r.class # "n" /\ ~IsCodec(r.type)) => r.out = "err"
        /\ (r.kind = "len" /\ r.class \in {"2^32", "2^60", "2^64-1"}) => r.out = "err"
